@@ -52,6 +52,86 @@ struct Side {
 
 std::vector<uint8_t> g_buf, g_rbuf;
 
+// A blocking endpoint runs its calls in its own thread; the main thread keeps
+// the (non-blocking) peer pumping meanwhile.
+struct BlockOp {
+    enum { NONE, SEND, RECV, QUIT } type = NONE;
+    Ep *ep = nullptr;
+    void *buf = nullptr;
+    size_t len = 0;
+    int rc = 0, err = 0;
+    bool done = true;
+};
+struct Worker {
+    pthread_t th;
+    pthread_mutex_t mu = PTHREAD_MUTEX_INITIALIZER;
+    pthread_cond_t cv = PTHREAD_COND_INITIALIZER;
+    BlockOp op;
+    bool started = false;
+    static void *main(void *arg)
+    {
+        Worker *w = (Worker *)arg;
+        for (;;) {
+            pthread_mutex_lock(&w->mu);
+            while (w->op.done) pthread_cond_wait(&w->cv, &w->mu);
+            BlockOp op = w->op;
+            pthread_mutex_unlock(&w->mu);
+            if (op.type == BlockOp::QUIT) break;
+            int rc = 0;
+            errno = 0;
+            if (op.type == BlockOp::SEND) rc = x_send(*op.ep, op.buf, op.len);
+            else if (op.type == BlockOp::RECV) rc = x_receive(*op.ep, op.buf, op.len);
+            int e = errno;
+            pthread_mutex_lock(&w->mu);
+            w->op.rc = rc;
+            w->op.err = e;
+            w->op.done = true;
+            pthread_cond_broadcast(&w->cv);
+            pthread_mutex_unlock(&w->mu);
+        }
+        return nullptr;
+    }
+    void start()
+    {
+        if (started) return;
+        started = true;
+        pthread_create(&th, nullptr, main, this);
+    }
+    void post(int type, Ep *ep, void *buf, size_t len)
+    {
+        start();
+        pthread_mutex_lock(&mu);
+        op.type = (decltype(op.type))type;
+        op.ep = ep; op.buf = buf; op.len = len; op.done = false;
+        pthread_cond_broadcast(&cv);
+        pthread_mutex_unlock(&mu);
+    }
+    bool poll_done(int *rc, int *err)
+    {
+        pthread_mutex_lock(&mu);
+        bool d = op.done;
+        if (d) { *rc = op.rc; *err = op.err; }
+        pthread_mutex_unlock(&mu);
+        return d;
+    }
+    void stop()
+    {
+        if (!started) return;
+        post(BlockOp::QUIT, nullptr, nullptr, 0);
+        pthread_join(th, nullptr);
+        started = false;
+        op.done = true;
+    }
+};
+Worker g_worker;
+
+double now_s()
+{
+    struct timespec ts;
+    clock_gettime(CLOCK_MONOTONIC, &ts);
+    return ts.tv_sec + ts.tv_nsec / 1e9;
+}
+
 struct Run {
     Case &c;
     int tp;
@@ -61,6 +141,10 @@ struct Run {
     bool trunc_then_recv = false;
     uint64_t refused_sends = 0, refused_pending = 0, failed_sends_nontrivial = 0;
     uint64_t partial_accepts = 0;
+    int eintr_next = 0;
+    uint64_t eintr_hits = 0;
+    bool failed_blocking_bytes = false;
+    std::vector<std::pair<uint32_t, uint32_t>> failed_blocking_sends;
     Run(Case &cc) : c(cc) {}
 
     bool check_counters() const { return g_mode == M_C17 || g_mode == M_C03; }
@@ -135,6 +219,43 @@ struct Run {
     // Which errno a side reports after the harness closed its peer is C06's
     // business (a TLS peer closing with an unflushed record legitimately
     // yields EPROTO); here any terminal errno is fine once the peer is gone.
+    // Run a call of blocking side i in the worker thread while the main thread
+    // keeps the non-blocking peer receiving/finishing (ledger-checked).
+    Outcome blocking_call(int i, int type, void *buf, size_t len, int *rc, int *err)
+    {
+        Side &sd = s[i];
+        g_worker.post(type, &sd.ep, buf, len);
+        double t0 = now_s();
+        int spins = 0;
+        while (!g_worker.poll_done(rc, err)) {
+            Side &peer = s[1 - i];
+            if (!peer.ep.closed && !peer.ep.blocking) {
+                Outcome o = do_finish(1 - i);
+                if (!o.ok) { wait_done(rc, err); return o; }
+                if (type == BlockOp::SEND && !peer.failed) {
+                    o = do_recv(1 - i, 70000);
+                    if (!o.ok) { wait_done(rc, err); return o; }
+                }
+            }
+            if (++spins > 50) usleep(200);
+            if (now_s() - t0 > 10.0) {
+                // bounded-liveness reading of C04 for blocking calls
+                wait_done(rc, err, true);
+                return failf("C04: blocking %s on %s did not return within 10 s although the peer kept %s",
+                             type == BlockOp::SEND ? "xcm_send" : "xcm_receive", sd.name,
+                             type == BlockOp::SEND ? "receiving" : "flushing an accepted message");
+            }
+        }
+        return Outcome::pass();
+    }
+    void wait_done(int *rc, int *err, bool force = false)
+    {
+        // make the blocked call return: close the peer
+        if (force) for (int k = 0; k < 2; k++) if (!s[k].ep.blocking && !s[k].ep.closed) x_close(s[k].ep);
+        double t0 = now_s();
+        while (!g_worker.poll_done(rc, err) && now_s() - t0 < 20) usleep(1000);
+    }
+
     bool errno_ok_after_peer_gone(int e) { return e != EAGAIN && e != 0; }
 
     // ---- SEND
@@ -153,9 +274,50 @@ struct Run {
         bool had_cnt = sd.have_cnt;
         if (check_counters()) { Outcome o = read_counters(i, "before send"); if (!o.ok) { free(buf); return o; } memcpy(before, sd.cnt, sizeof(before)); had_cnt = true; }
         errno = 0;
-        int rc = x_send(sd.ep, buf, len);
-        int e = errno;
-        c.log("%s send(tag=%u,len=%u) -> %d %s", sd.name, tag, len, rc, rc < 0 ? errname(e) : "");
+        int rc, e;
+        size_t tentative_msgs = out.msgs.size(), tentative_bytes = out.bytes.size();
+        bool was_blocking = sd.ep.blocking;
+        if (sd.ep.blocking) {
+            // The peer may legitimately obtain the data before the blocking call
+            // returns: enter it tentatively, commit or retract afterwards.
+            if (!bs) { if (len >= 1 && len <= 65535) out.msgs.push_back({tag, len}); }
+            else out.pending.assign((const char *)buf, len);
+            int eintr_n = eintr_next;
+            eintr_next = 0;
+            if (eintr_n) { sh_eintr_at(eintr_n); }
+            Outcome bo = blocking_call(i, BlockOp::SEND, buf, len, &rc, &e);
+            bool hit = eintr_n && rc < 0 && e == EINTR;
+            sh_eintr_at(0);
+            if (hit) { c.cls("eintr-injected-into-blocking-send"); eintr_hits++; }
+            if (!bo.ok) { free(buf); return bo; }
+            if (!bs) {
+                if (out.msgs.size() > tentative_msgs) {
+                    if (rc != 0) {
+                        // failed: the tentative message must not have been delivered
+                        if (out.delivered > tentative_msgs) {
+                            free(buf);
+                            return failf("C03: blocking xcm_send returned -1 (%s) but the message (tag %u, len %u) was delivered to the peer", errname(e), tag, len);
+                        }
+                        out.msgs.pop_back();
+                        failed_blocking_sends.push_back({tag, len});
+                    } else
+                        out.msgs.pop_back(); // re-added by the common path below
+                }
+            } else {
+                size_t got_early = out.off > out.bytes.size() ? out.off - out.bytes.size() : 0;
+                out.pending.clear();
+                if (got_early > (size_t)(rc > 0 ? rc : 0)) {
+                    free(buf);
+                    return failf("C02: blocking xcm_send(len %u) returned %d (%s) but %zu of its bytes were received by the peer", len, rc, rc < 0 ? errname(e) : "", got_early);
+                }
+                if (rc < 0 && e != EAGAIN) failed_blocking_bytes = true;
+            }
+        } else {
+            rc = x_send(sd.ep, buf, len);
+            e = errno;
+        }
+        (void)tentative_bytes; (void)was_blocking;
+        c.log("%s %ssend(tag=%u,len=%u) -> %d %s", sd.name, sd.ep.blocking ? "blocking " : "", tag, len, rc, rc < 0 ? errname(e) : "");
         if (tp == BTLS && rc < 0 && e == EAGAIN && excluded("btls-refused-send-not-retried-identically")) {
             // Known finding (see known_findings.json): a btls send refused with
             // EAGAIN leaves its record inside OpenSSL, which transmits it later
@@ -209,7 +371,10 @@ struct Run {
                 refused_sends++;
                 if (!bs && x_cnt(sd.ep, CNT_NAMES[FROM_APP_M]) > x_cnt(sd.ep, CNT_NAMES[TO_LOWER_M])) refused_pending++;
                 if (tp == BTLS) { if (!sd.refused || tag != sd.refused_tag) { sd.refused_tag = tag; sd.refused_len = len; } else sd.refused_len = std::max(sd.refused_len, len); sd.refused = true; }
+            } else if (e == EINTR && sd.ep.blocking) {
+                // interrupted blocking wait: no trace (checked above / at the end)
             } else if (e == EINVAL || e == EMSGSIZE) {
+                c.cls("send-invalid-size");
                 VF_CHECK((e == EINVAL && len == 0) || (e == EMSGSIZE && len > 65535),
                          "C03: send(len=%u) failed with %s", len, errname(e));
             } else {
@@ -220,7 +385,7 @@ struct Run {
                 out.slack_msgs++;
                 out.slack_bytes += len;
             }
-            if ((e == EAGAIN || e == EINVAL || e == EMSGSIZE) && check_counters()) {
+            if ((e == EAGAIN || e == EINVAL || e == EMSGSIZE || (e == EINTR && !bs)) && check_counters()) {
                 // no trace: from_app / to_app / from_lower unchanged by the failed call
                 Outcome o = read_counters(i, "after refused send");
                 if (!o.ok) return o;
@@ -248,8 +413,18 @@ struct Run {
         uint8_t *buf = (uint8_t *)malloc(cap ? cap : 1);
         memset(buf, 0xEE, cap);
         errno = 0;
-        int rc = x_receive(sd.ep, buf, cap);
-        int e = errno;
+        int rc, e;
+        if (sd.ep.blocking) {
+            // only when something is owed (else the call would rightly block for ever)
+            bool owed = bs ? in.off < in.bytes.size() : in.delivered < in.msgs.size();
+            if (!owed && !peer.ep.closed) { free(buf); return Outcome::pass(); }
+            Outcome bo = blocking_call(i, BlockOp::RECV, buf, cap, &rc, &e);
+            if (!bo.ok) { free(buf); return bo; }
+            c.cls("blocking-receive");
+        } else {
+            rc = x_receive(sd.ep, buf, cap);
+            e = errno;
+        }
         if (rc != -1 || e != EAGAIN || c.trace.size() < 20000)
             c.log("%s receive(cap=%zu) -> %d %s", sd.name, cap, rc, rc < 0 ? errname(e) : "");
         Outcome o = Outcome::pass();
@@ -393,6 +568,7 @@ public:
     size_t step_len() override { return 7; }
     size_t max_steps() override { return 120; }
 
+    void teardown() override { g_worker.stop(); }
     void setup() override
     {
         const char *m = getenv("VF_PROP");
@@ -424,7 +600,23 @@ public:
         po.small_bufs = small;
         std::string err = make_pair(po, r.s[0].ep, r.s[1].ep);
         VF_CHECK(err.empty(), "setup: %s pair: %s", tp_name(r.tp), err.c_str());
-        c.log("transport %s%s", tp_name(r.tp), small ? " small-socket-buffers" : "");
+        // at most one blocking endpoint (its calls run in a worker thread while
+        // the main thread pumps the non-blocking peer)
+        int bsel = cfg.ch(8);
+        int blocking_side = bsel == 0 ? 0 : bsel == 1 ? 1 : -1;
+        if (getenv("VF_BLOCKING")) blocking_side = atoi(getenv("VF_BLOCKING"));
+        if (r.tp == BTLS && blocking_side >= 0 && excluded("btls-refused-send-not-retried-identically")) {
+            // the exclusion's identical-retry loop needs a peer the main thread can drain
+            count_exclusion("btls-blocking-endpoint-with-refused-send-exclusion");
+            blocking_side = -1;
+        }
+        if (blocking_side >= 0) {
+            int rc = x_set_blocking(r.s[blocking_side].ep, true);
+            VF_CHECK(rc == 0, "xcm_set_blocking(true) on an established connection failed: %s", errname(errno));
+            c.cls("blocking-endpoint");
+        }
+        c.log("transport %s%s%s", tp_name(r.tp), small ? " small-socket-buffers" : "",
+              blocking_side < 0 ? "" : blocking_side == 0 ? " A-blocking" : " B-blocking");
         c.cls(std::string("tp:") + tp_name(r.tp));
         Outcome o = r.counters_both("after establishment");
         size_t stepno = 0;
@@ -437,7 +629,16 @@ public:
             if (k < 34) {
                 uint32_t len = pick_len(d, r.bs, g_mode == M_C03);
                 uint32_t tag = mix32(d.raw(), (uint32_t)stepno);
+                bool blk = r.s[side].ep.blocking;
+                if (blk && d.ch(3) == 0) r.eintr_next = (int)d.range(1, 3);
+                bool resend = d.flag();
+                size_t nfail = r.failed_blocking_sends.size();
                 o = r.do_send(side, tag, len);
+                if (o.ok && blk && resend && r.failed_blocking_sends.size() > nfail) {
+                    // the application re-sends the message whose send failed
+                    c.cls("resend-after-failed-blocking-send");
+                    o = r.do_send(side, tag, len);
+                }
             } else if (k < 68) {
                 size_t cap;
                 if (r.bs) { static const int CB[] = {1, 2, 100, 4096, 16384, 16385, 70000}; cap = d.ch(2) ? (size_t)d.pick(CB) : (size_t)d.range(1, 70000); }
@@ -484,6 +685,11 @@ public:
     {
         sh_clear(r.s[0].ep.tag);
         sh_clear(r.s[1].ep.tag);
+        for (int i = 0; i < 2; i++)
+            if (!r.s[i].ep.closed && r.s[i].ep.blocking) {
+                int rc = x_set_blocking(r.s[i].ep, false);
+                VF_CHECK(rc == 0, "xcm_set_blocking(false) failed: %s", errname(errno));
+            }
         bool both_alive = !r.s[0].ep.closed && !r.s[1].ep.closed;
         int idle = 0;
         double idle_since = -1;
@@ -601,7 +807,7 @@ public:
                                                       : (real_eagain || inj || r.trunc_then_recv));
             break;
         case M_C02: nt = delivered > 0 && (r.partial_accepts || r.refused_sends || split); break;
-        case M_C03: nt = r.refused_sends > 0 || c.classes.count("send-invalid-size"); break;
+        case M_C03: nt = r.refused_pending > 0 || r.eintr_hits > 0 || (r.refused_sends > 0 && (split || inj)); break;
         case M_C17: nt = delivered > 0 && (c.classes.count("truncating-receive") || r.refused_sends || split); break;
         }
         c.nt(nt);
